@@ -3,8 +3,8 @@
    `sk.ctl  <pedantic> <nPts> <nCvt> <nSto> <maxStack> <nF> <nI> <numGlyphs> x0 … x(nPts+3)  Lf fpgm…  Lp prep…  Lg glyph…`
    `ft.ctl  <pedantic> <same>`         `cmp.ctl <pedantic> <same>`
 
-   sk.ctl: skrifa `HintInstance::reconfigure` (font program, then control value program on the same engine: value
-           stack and storage carry over) and `HintInstance::hint` of one glyph with the given x coordinates (26.6;
+   sk.ctl: skrifa `HintInstance::reconfigure` (font program, then control value program on the same engine: the
+           storage carries over, the value stack is cleared) and `HintInstance::hint` of one glyph with the given x coordinates (26.6;
            the last four are the phantom points), Target::Mono, static font → `ok x…`, `err:new:<Kind>`, `err:draw:<Kind>`
    ft.ctl: FreeType `tt_size_init_bytecode` (fpgm) / `tt_size_ready_bytecode` (storage cleared, prep) / `TT_Hint_Glyph`
            → `ok x…` (non-pedantic: also after a glyph-program error, with the points as they were at the abort) or
@@ -179,10 +179,9 @@ def cmpRun (r : Req) (ped : Bool) : String :=
   if pedChanges then "diff:fpgm:pedantic-load-changes-fpgm-or-prep" else
   stage "fpgm" c fc 1 (Interp.initSt 0 (blank (Interp.functionSlots r.nF)) (blank r.nI) [] (dat0 r false))
       (FtControl.initSt 1 [] [] 0 0 [] (dat0 r false)) fun s1 t1 =>
-    if s1.vs ≠ [] then "diff:prep:initial-stack-left-by-fpgm"
-    else if s1.data.store ≠ zeros r.nSto then "diff:prep:storage-written-by-fpgm"
+    if s1.data.store ≠ zeros r.nSto then "diff:prep:storage-written-by-fpgm"
     else
-    stage "prep" c fc 2 (Interp.initSt 1 s1.funcs s1.idefs s1.vs s1.data)
+    stage "prep" c fc 2 (Interp.initSt 1 s1.funcs s1.idefs (HintControl.prepStack s1.vs) s1.data)
         (FtControl.initSt 2 t1.fdefs t1.idefs t1.maxFunc t1.maxIns [] (dat0 r false)) fun s2 t2 =>
       stage "glyph" (skCfg r true ped) (ftCfg r ped true) 3
           (Interp.initSt 2 s2.funcs s2.idefs [] { s2.data with xs := r.xs, pedantic := ped })
